@@ -1,3 +1,4 @@
+import WmModel.Props.C05SerialNeg
 import WmModel.Props.C05Serial
 import WmModel.Props.C05Order
 import WmModel.Props.C05Prod
@@ -34,3 +35,4 @@ import WmModel.Props.C05
 #print axioms Wm.GcProd.blocking_senders_serialised
 #print axioms Wm.GcProd.blocking_deliveries_in_publish_order
 #print axioms Wm.GcProd.serial_witness
+#print axioms Wm.GcProd.nonblocking_order_not_guaranteed_witness
